@@ -257,7 +257,7 @@ func genCanonical(r *lib.Rng) Val {
 	switch r.Intn(9) {
 	case 8: // a record type this code does not know, not critical: to be skipped
 		return VL(VI(8), VI(int64(lib.Pick(r, 8, 9, 100, 0x3fff, 0x7fff, 8+r.Intn(32760)))),
-			VBy(r.Bytes(lib.Pick(r, 0, 1, 2, r.Intn(20), 255, 256, 257, 300, 1000))))
+			VBy(r.Bytes(lib.Pick(r, 0, 1, 2, r.Intn(20), r.Intn(20), r.Intn(20), 255, 256, 257, 300, 1000, 4095, 4096, 4097, 8192, 65535))))
 	case 0:
 		return VL(VI(1), VU(genU(r, 16)))
 	case 1:
@@ -363,7 +363,7 @@ func genNtske(r *lib.Rng, thorough bool) {
 			if r.Bool() {
 				t |= 0x8000
 			}
-			body := r.Bytes(lib.Pick(r, r.Intn(20), r.Intn(20), 255, 256, 257, 300, 1000))
+			body := r.Bytes(lib.Pick(r, r.Intn(20), r.Intn(20), 255, 256, 257, 300, 1000, 4095, 4096, 4097, 8192, 65535))
 			u := append([]byte{byte(t >> 8), byte(t), byte(len(body) >> 8), byte(len(body))}, body...)
 			if r.Bool() { // in front, or between two records
 				s = append(u, s...)
